@@ -40,6 +40,16 @@ def run_property(pid: str, tier: str, replay: str | None = None) -> int:
                 print(f"VIOLATION property={pid} replay={replay}")
                 return 1
             return 0
+        if tier == "thorough" and not os.environ.get("VERIF_NO_ADVISORY"):
+            # validate the checker itself on scratch variants of the current tree (advisory, never changes the verdict)
+            from . import selftest
+            adv = selftest.advisory(pid)
+            run.extra["checker_validation"] = adv
+            print(f"SELFTEST property={pid}: {adv['fired']}/{adv['must_fire']} breaking variants of the current tree make this check fire "
+                  f"(mutants, reverted fixes, seeded changes); {adv['silent']}/{adv['must_stay_silent']} behaviour-preserving variants "
+                  f"(whole-tree rewrites, refactoring corpus) leave it silent; {len(adv['skipped'])} skipped")
+            for l in adv["failed"]:
+                print(f"SELFTEST-WARNING property={pid} {l}")
         return run.finish(c.p.digests())
     except AnalysisError as e:
         print(f"ANALYSIS-ERROR property={pid} {type(e).__name__}: {e}")
